@@ -31,13 +31,53 @@ Preludes == <<
                                   NAok(3, 1, "p2")>>,                            suf |-> <<>>]
 >>
 
+(* Preludes with chain events (executed on the real graph.Builder only): the *)
+(* message meets a graph that a reorganisation / an on-chain close has       *)
+(* shrunk - and whose channel-less nodes the next block has swept.           *)
+Full == <<CAok(1, "p1"), CAok(2, "p1"), CUok(1, 0, 1, 1, "p1"), CUok(2, 1, 1, 1, "p1"),
+          NAok(1, 1, "p1"), NAok(2, 1, "p1"), NAok(3, 1, "p2")>>
+ChainPreludes == <<
+  \* the blocks at 103 and 102 go (channel 2 with them), a replacement block connects: node 3 is swept
+  [name |-> "reorg2",   pre |-> Full \o <<BDMsg, BDMsg, BCMsg(0)>>,               suf |-> <<CAok(2, "p2")>>],
+  \* the reorganisation reaches below both channels; two replacement blocks: every node is swept
+  [name |-> "reorgall", pre |-> Full \o <<BDMsg, BDMsg, BDMsg, BCMsg(0), BCMsg(0)>>, suf |-> Both],
+  \* channel 1 is closed on chain: node 1 is swept
+  [name |-> "closed1",  pre |-> Full \o <<BCMsg(1)>>,                             suf |-> <<CAok(1, "p2")>>]
+>>
+ASSUME \A i \in 1..Len(ChainPreludes) :
+          /\ \A j \in 1..Len(ChainPreludes[i].pre) :
+                ChainPreludes[i].pre[j] \in Universe \cup ZOUniverse \cup ChainUniverse
+          /\ \A j \in 1..Len(ChainPreludes[i].suf) : ChainPreludes[i].suf[j] \in Universe
+ASSUME ndJsonSerialize("preludes_chain.ndjson", ChainPreludes)
+
+(* The reorganisation window (probe; executed on the real graph.Builder      *)
+(* only, apart from everything else): node announcements that arrive after   *)
+(* a stale block has taken a node's last channel and BEFORE the next block   *)
+(* connects.  The specification says DropNoChannel (the node has no known     *)
+(* channel); lnd at the pinned commit still holds the vertex and applies the  *)
+(* announcement (report b20d, key gossip:builder:reorg-window:...).  These    *)
+(* schedules are kept out of the generated behaviours (GossipGen Window =     *)
+(* FALSE) and out of the sweep, so that this known deviation does not mask    *)
+(* anything else.                                                            *)
+WindowProbes == <<
+  \* a shell vertex (never announced) gets its first announcement in the window
+  <<CAok(2, "p1"), BDMsg, BDMsg, NAok(3, 1, "p1"), BCMsg(0), NAok(3, 2, "p1")>>,
+  \* an announced node gets a newer announcement in the window; the channel comes back afterwards
+  Full \o <<BDMsg, BDMsg, NAok(3, 2, "p1"), BCMsg(0), CAok(2, "p2"), NAok(3, 3, "p2")>>,
+  \* the reorganisation takes every channel
+  <<CAok(1, "p1"), BDMsg, BDMsg, BDMsg, NAok(1, 1, "p1"), NAok(2, 1, "p2"), BCMsg(0), NAok(1, 2, "p1")>>
+>>
+ASSUME \A i \in 1..Len(WindowProbes) : \A j \in 1..Len(WindowProbes[i]) :
+          WindowProbes[i][j] \in Universe \cup ChainUniverse
+ASSUME \A i \in 1..Len(WindowProbes) : ndJsonSerialize("w_" \o ToString(i) \o ".ndjson", WindowProbes[i])
+
 ASSUME \A i \in 1..Len(Preludes) :
           /\ \A j \in 1..Len(Preludes[i].pre) : Preludes[i].pre[j] \in Universe \cup ZOUniverse
           /\ \A j \in 1..Len(Preludes[i].suf) : Preludes[i].suf[j] \in Universe
 ASSUME ndJsonSerialize("universe.ndjson", SetToSeq(Universe))
 ASSUME ndJsonSerialize("preludes.ndjson", Preludes)
 ASSUME PrintT(<<"universe", Cardinality(Universe), Cardinality(CAUniverse), Cardinality(CUUniverse),
-                Cardinality(NAUniverse), "preludes", Len(Preludes)>>)
+                Cardinality(NAUniverse), "preludes", Len(Preludes), Len(ChainPreludes)>>)
 
 SweepSpec == Init /\ [][UNCHANGED vars]_vars
 =============================================================================
